@@ -27,6 +27,8 @@ pub fn plan(tier: Tier) -> Plan {
         ("tail", 8, 12),
         ("tiny", 8, 11),
         ("large", 8, 11),
+        ("tiny20", 7, 10),
+        ("large25", 7, 10),
     ];
     for (a, q, t) in alphas {
         let d = if tier == Tier::Quick { *q } else { *t };
